@@ -4,6 +4,7 @@ import (
 	"bytes"
 	"errors"
 	"fmt"
+	"io"
 	"strings"
 	"time"
 
@@ -43,6 +44,43 @@ func (w *recWriter) Write(p []byte) (int, error) {
 	}
 	w.accepted = append(w.accepted, p...)
 	return len(p), nil
+}
+
+// Writers of other shapes: a destination may offer WriteByte and / or WriteString next to Write
+// (bufio.Writer, bytes.Buffer, strings.Builder do); each such call is one call of the underlying
+// recWriter, so the fault enumeration covers them like any Write. A failing WriteByte accepts nothing.
+type recByteWriter struct{ *recWriter }
+
+func (w recByteWriter) WriteByte(c byte) error {
+	if len(w.writes) == w.failAt {
+		w.accept = 0
+	}
+	_, err := w.Write([]byte{c})
+	return err
+}
+
+type recStringWriter struct{ *recWriter }
+
+func (w recStringWriter) WriteString(s string) (int, error) { return w.Write([]byte(s)) }
+
+type recByteStringWriter struct {
+	recByteWriter
+}
+
+func (w recByteStringWriter) WriteString(s string) (int, error) { return w.Write([]byte(s)) }
+
+var writerShapes = []string{"Write only", "Write+WriteByte", "Write+WriteString", "Write+WriteByte+WriteString"}
+
+func shapedWriter(w *recWriter, shape int) io.Writer {
+	switch shape {
+	case 1:
+		return recByteWriter{w}
+	case 2:
+		return recStringWriter{w}
+	case 3:
+		return recByteStringWriter{recByteWriter{w}}
+	}
+	return w
 }
 
 var encStrings = []string{"x", "hello", "two\nlines", "cr\rlf", "crlf\r\nend", "\n", "\r\n\r\n", "trail\n", " lead", ":", "a:b", "id: 7", "data: y", "é€", "\xEF\xBB\xBFbom", "\x00", "", "  ", "retry: 5"}
@@ -150,8 +188,10 @@ func runEncodeWorld(rc *RunCtx) (out *Outcome) {
 	}()
 
 	// fault-free encoding with its Write boundaries
+	shape := ch.Weighted([]int{3, 1, 1, 1}, "writer shape")
+	desc += " -> " + writerShapes[shape]
 	base := &recWriter{failAt: -1}
-	n, err := m.WriteTo(base)
+	n, err := m.WriteTo(shapedWriter(base, shape))
 	full := base.accepted
 	if err != nil || int(n) != len(full) {
 		o.violate("C15", "fault-free", "message %s: WriteTo on a healthy writer returned (%d, %v) for %d bytes", desc, n, err, len(full))
@@ -239,7 +279,7 @@ func runEncodeWorld(rc *RunCtx) (out *Outcome) {
 			points++
 			injected := newInjected(fmt.Sprintf("write#%d after %d bytes", k, a))
 			fw := &recWriter{failAt: k, accept: a, err: injected}
-			n, err := m.WriteTo(fw)
+			n, err := m.WriteTo(shapedWriter(fw, shape))
 			o.fault("writer fails at a Write call")
 			where := fmt.Sprintf("message %s, Write #%d (%q) accepting %d bytes", desc, k, wr, a)
 			if !errors.Is(err, injected) {
